@@ -89,6 +89,10 @@ def run(tier):
     for m in machines + ["parisc", "unknown"]:
         syms = [{"name": "t%d" % t, "value": t, "size": t, "type": t, "bind": 0, "vis": 0, "shndx": 1} for t in range(16)]
         syms += [{"name": "b%d" % b_, "value": 0, "size": 0, "type": 0, "bind": b_, "vis": b_ % 4, "shndx": 0xfff1} for b_ in range(1, 16)]
+        # st_other carries more than the visibility: the upper six bits are the processor's (PPC64 local entry,
+        # MIPS PLT / PIC / MIPS16, AArch64 variant PCS ...); visibility is the low two bits only
+        syms += [{"name": "o%d" % k, "value": 0, "size": 0, "type": 2, "bind": 1, "vis": k % 4, "other": ob, "shndx": 1}
+                 for k, ob in enumerate([0x60, 0x80, 0x08, 0xfc, 0x04, 0x20, 0xe0, 0x10])]
         syms += [{"name": "", "value": 7, "size": 0, "type": 1, "bind": 1, "vis": 0, "shndx": 1}, {"name": "x" * 3000, "value": 1, "size": 1, "type": 2, "bind": 2, "vis": 3, "shndx": 0}]
         p = os.path.join(wd, "all-%s.o" % m)
         elfgen.write_obj(p, m, syms)
@@ -97,7 +101,7 @@ def run(tier):
     nok = 0
     for (p, m, t), rec in zip(meta, recs):
         vd.cov["evaluations"] += 1
-        n = len(t["tab"]) if t else 34
+        n = len(t["tab"]) if t else 42
         if check_file(vd, p, rec, m, "generated symbol table (%s, %d entries)" % (m, n)):
             nok += 1
         # cross-check of the generator with readelf
